@@ -258,13 +258,15 @@ def _reconf_child(work, cases):
     return out
 
 
-def reconfigure_equivalence(ctx, cov, n):
+def reconfigure_equivalence(ctx, cov, n, must_change=None):
+    """must_change: names of which one is re-assigned in every case (default: every setting in turn)"""
     rng = _random.Random(ctx.rng.randrange(2**40))
     names = sorted(RECONF_VALUES)
+    turn = list(must_change) if must_change else names
     cases = []
     for i in range(n):
         c1 = {k: rng.choice(RECONF_VALUES[k]) for k in names}
-        changed = [names[i % len(names)]] + rng.sample(names, rng.randrange(0, 4))
+        changed = [turn[i % len(turn)]] + rng.sample(names, rng.randrange(0, 4))
         c2 = dict(c1)
         for k in changed:
             others = [v for v in RECONF_VALUES[k] if v != c1[k]]
@@ -287,3 +289,83 @@ def reconfigure_equivalence(ctx, cov, n):
                                        "what": f"a terminal whose settings {changed} were re-assigned on the live object (after every getter had been called once) serves request {i} differently "
                                                f"from a terminal constructed with the new settings: {', '.join(diffs)} differ (result {x['val']} vs {y['val']})", "case": case})
                 break
+
+
+# ------------------------------------------------------------------------------ `display id:N`
+def cli_id_scenarios(ctx, cov):
+    """`tupimage display id:N` re-displays an image known to the session database: upload_and_display(get_image_instance(N)).
+    Two tmux clients of one session (fake `tmux` executable) share the database; the file behind the id may have been
+    overwritten or deleted in the meantime — then the terminal that never received the image must not be told to show it:
+    the command fails and prints nothing, exactly like the library call."""
+    from PIL import Image
+    work = os.path.join(ctx.work, "cli-id")
+    os.makedirs(work, exist_ok=True)
+    prog_api = (
+        "import sys, os\n"
+        "import tupimage\n"
+        "t = tupimage.TupimageTerminal(out_display='disp2.out', config_overrides={'force_upload': False, 'max_cols': None, 'max_rows': None, 'scale': None, 'provenance': 'set via command line'})\n"
+        "inst = t.get_image_instance(int(sys.argv[1]))\n"
+        "if inst is None:\n"
+        "    sys.exit(1)\n"
+        "t.upload_and_display(inst, rows=None, cols=None)\n"
+    )
+    scenarios = [("same-terminal", "101", None), ("other-terminal", "202", None), ("other-terminal-file-overwritten", "202", "overwrite"),
+                 ("other-terminal-file-deleted", "202", "delete"), ("same-terminal-file-overwritten", "101", "overwrite")]
+    for name, client2, damage in scenarios:
+        runs = {}
+        for who in ("cli", "api"):
+            d = os.path.join(work, f"{name}-{who}")
+            os.makedirs(os.path.join(d, "bin"), exist_ok=True)
+            os.makedirs(os.path.join(d, "tmp"), exist_ok=True)
+            with open(os.path.join(d, "bin", "tmux"), "w") as f:
+                f.write("#!/bin/sh\necho \"xterm-kitty||||$FAKE_TMUX_CLIENT||||77_sess\"\n")
+            os.chmod(os.path.join(d, "bin", "tmux"), 0o755)
+            rnd = _random.Random(77)
+            im = Image.new("RGB", (17, 9))
+            im.putdata([(rnd.randrange(256), rnd.randrange(256), rnd.randrange(256)) for _ in range(17 * 9)])
+            im.save(os.path.join(d, "a.png"))
+            os.utime(os.path.join(d, "a.png"), ns=(1_700_000_000_000_000_000, 1_700_000_000_000_000_000))
+            base = _sandbox_env(d, {"TMUX": "/tmp/tmux-0/default,1,0", "TERM": "screen-256color", "PATH": os.path.join(d, "bin") + ":" + os.environ.get("PATH", "")})
+
+            def step(argv_or_prog, client, api=False):
+                env = dict(base, FAKE_TMUX_CLIENT=client)
+
+                def child():
+                    cmd = [common.PY, "-c", argv_or_prog[0]] + argv_or_prog[1:] if api else [common.PY, "-m", "tupimage.cli"] + argv_or_prog
+                    p = subprocess.run(cmd, env=env, cwd=d, stdout=subprocess.PIPE, stderr=subprocess.PIPE, timeout=120)
+                    return {"rc": p.returncode, "stderr": p.stderr.decode(errors="replace")[-300:]}
+                return common.in_pty(child, timeout=300)
+
+            r1 = step(["display", "--out-display", "disp1.out", "a.png"], "101")
+            if "ok" not in r1 or r1["ok"]["rc"] != 0:
+                ctx.corr_breaks.append({"what": "CLI id scenarios: the first display failed", "scenario": name, "error": {k: v for k, v in r1.items() if k != "tty"}})
+                runs = None
+                break
+            if damage == "overwrite":
+                im2 = Image.new("RGB", (5, 21), (200, 10, 10))
+                im2.save(os.path.join(d, "a.png"))
+                os.utime(os.path.join(d, "a.png"), ns=(1_700_000_100_000_000_000, 1_700_000_100_000_000_000))
+            elif damage == "delete":
+                os.remove(os.path.join(d, "a.png"))
+            r2 = step([prog_api, "10"], client2, api=True) if who == "api" else step(["display", "--out-display", "disp2.out", "id:10"], client2)
+            if "ok" not in r2:
+                ctx.corr_breaks.append({"what": "CLI id scenarios: the second step failed in the sandbox", "scenario": name, "error": {k: v for k, v in r2.items() if k != "tty"}})
+                runs = None
+                break
+            try:
+                with open(os.path.join(d, "disp2.out"), "rb") as f:
+                    disp = f.read()
+            except OSError:
+                disp = b""
+            runs[who] = {"failed": r2["ok"]["rc"] != 0, "tty": bytes(r2["tty"]), "disp": disp, "stderr": r2["ok"]["stderr"]}
+        if not runs:
+            continue
+        case = {"kind": "cli-id", "scenario": name}
+        cov.add(case, klass="cli-id/" + name)
+        a, b = runs["cli"], runs["api"]
+        diffs = [k for k in ("failed", "tty", "disp") if a[k] != b[k]]
+        if diffs:
+            ctx.violations.append({"signature": {"class": "cli-differs-from-library-call", "what": diffs, "scenario": name},
+                                   "what": f"`tupimage display id:10` ({name}) puts something else on the terminal than upload_and_display(get_image_instance(10)): {', '.join(diffs)} differ "
+                                           f"(failed {a['failed']} vs {b['failed']}, commands {len(a['tty'])} vs {len(b['tty'])} bytes, placeholder {len(a['disp'])} vs {len(b['disp'])} bytes; stderr {a['stderr'][-120:]!r})",
+                                   "case": case})
